@@ -89,3 +89,35 @@ package alert
 //@   ensures result == nil ==> gf(&buf, content, string) == ""
 //@   guardcall loadConvertTopicBucket#1: str(arg1) == topic
 //@   guardcall RestoreTopicNoCopy#1: arg0 == topic && arg1 == callresult(loadConvertTopicBucket, 0)
+
+// ---------------------------------------------------------------- handlers.go match (C09)
+// "every handler ... whose match condition holds for that event (level(), changed(), ...) is told":
+// the functions a match expression may call are bound to THIS event before the expression is
+// evaluated, on every call: a function installed for an earlier event must never answer for a
+// later one. Each closure answers from the event it was made for.
+//@ func =(*github.com/influxdata/kapacitor/tick/stateful.Scope).Reset
+//@   trusted
+//@   modifies nothing
+//@ func =(*github.com/influxdata/kapacitor/tick/stateful.Scope).SetDynamicFunc
+//@   trusted
+//@   modifies nothing
+//@ func =(*github.com/influxdata/kapacitor/tick/stateful.Scope).Set
+//@   trusted
+//@   modifies nothing
+//@ func =(github.com/influxdata/kapacitor/tick/stateful.Expression).EvalBool
+//@   trusted
+//@   modifies nothing
+//@ func (*matchHandler).match
+//@   props C09
+//@   requires h != nil && h.scope != nil && h.expr != nil
+//@   ensures [changed-bound] old(h.usesChanged) ==> calledwith(SetDynamicFunc, 0, changedFunc)
+//@   ensures [level-bound] old(h.usesLevel) ==> calledwith(SetDynamicFunc, 0, levelFunc)
+//@   ensures [name-bound] old(h.usesName) ==> calledwith(SetDynamicFunc, 0, nameFunc)
+//@   ensures [taskname-bound] old(h.usesTaskName) ==> calledwith(SetDynamicFunc, 0, taskNameFunc)
+//@   ensures [duration-bound] old(h.usesDuration) ==> calledwith(SetDynamicFunc, 0, durationFunc)
+//@   loop 1
+//@     invariant h != nil && h.scope != nil && h.expr != nil
+//@ func (*matchHandler).match$2
+//@   props C09
+//@   ensures len(args) == 0 ==> result1 == nil && typeis(result0, int64) && as(result0, int64) == int64(event.State.Level)
+//@   ensures len(args) != 0 ==> result1 != nil
